@@ -15,7 +15,7 @@ from ..gen import prob
 
 ID = "C19"
 LEVEL = "exploration"
-BUDGET = {"quick": 800, "thorough": 24000}
+BUDGET = {"quick": 4000, "thorough": 60000}
 SHARDS = {"quick": 8, "thorough": 16}
 RULE = (
     "Domain A (flaw injection): Hypothesis-generated valid graphs (gate-free and control-flow programs, optionally with the flaw "
